@@ -20,7 +20,7 @@ import z3
 from .ctx import CTX, PathEnd, OutOfSubset, Oblig
 from .sym import (SInt, SBool, SStr, SRef, SBV, SReal, PyRaise, mk_int, mk_bool, mk_str, And, Or, Not, implies, ite,
                   _zint, is_sym, BVW)
-from .values import VList, VObj, VDict, VSet, Opaque, ClassVal, HostFn, FuncVal, BoundMethod, EnumMember
+from .values import VList, VObj, VDict, VSet, Opaque, AbstractSeq, ClassVal, HostFn, FuncVal, BoundMethod, EnumMember
 from . import interp as _interp_mod
 from .interp import Interp, LoopSpec, NS, repo_root
 
@@ -194,6 +194,13 @@ def CLS(relpath, name):
     return getattr(_native_module(relpath), name)
 
 
+def construct(cls, *args, **kwargs):
+    """instantiate a class of the code under contract (runs its real __init__)"""
+    if isinstance(cls, ClassVal):
+        return interp().call(cls, list(args), kwargs)
+    return cls(*args, **kwargs)
+
+
 def OBJ(relpath, clsname, **fields):
     """an instance with the given fields, bypassing __init__ (the harness states the invariant)."""
     if modelled():
@@ -302,6 +309,8 @@ def attr(o, name):
 def length(x):
     if isinstance(x, VList):
         return x.len()
+    if isinstance(x, AbstractSeq):
+        return x.length
     if isinstance(x, SStr):
         return mk_int(z3.Length(x.t))
     if isinstance(x, VObj):
@@ -399,6 +408,23 @@ def raw_item(lst, idx):
     return lst[idx]
 
 
+def py_lower(s):
+    """str.lower (uninterpreted in sym mode)"""
+    if isinstance(s, SStr):
+        from .hostmodels import UF
+        return SStr(UF["lower"](s.t))
+    return s.lower()
+
+
+def one_of(x, options):
+    """x equals one of the constant options"""
+    return Or(*[x == o for o in options])
+
+
+def events(kind=None):
+    return [e for e in CTX.events if kind is None or e[0] == kind]
+
+
 def ghost(name, default=None):
     return CTX.ghost.setdefault(name, default)
 
@@ -483,6 +509,8 @@ def run_sym(h, case_d, timeout_ms=20000, max_paths=None):
                 elif r == z3.unknown:
                     CTX.obligs.append(Oblig(nm, "unknown", path=CTX.paths, detail="unexpected %s" % type(p.exc).__name__))
             except OutOfSubset as e:
+                if os.environ.get("PYVC_DEBUG"):
+                    traceback.print_exc()
                 res.undecided.append("out of subset: %s" % e)
             except RecursionError:
                 res.undecided.append("interpreter recursion limit")
